@@ -34,6 +34,7 @@ type Env struct {
 	Barriers map[string]*barrier
 	Cmds     []string          // command lines seen at the exec seam in this execution
 	lastCmd  string
+	fullCmd  string
 	dirMode  bool
 	CmdByKey map[string]string // task key -> the command scipipe handed over (between "cd tmp &&" and "&& cd ..")
 }
@@ -194,9 +195,18 @@ func (e *Env) simExec(name string, args []string) ([]byte, error, bool) {
 	}
 	line := args[1]
 	e.Cmds = append(e.Cmds, line)
+	// the command scipipe handed over: what stands between "cd <tmp> && " and " && cd .."
+	e.fullCmd = strings.TrimSuffix(line, " && cd ..")
+	if i := strings.Index(e.fullCmd, " && "); strings.HasPrefix(e.fullCmd, "cd ") && i > 0 {
+		e.fullCmd = e.fullCmd[i+4:]
+	}
 	cwd := "."
 	for _, part := range strings.Split(line, " && ") {
 		f := strings.Fields(part)
+		if len(f) > 1 && f[0] == "env" { // "env CMD ARGS": a launcher in front of the command
+			f = f[1:]
+			part = strings.TrimPrefix(strings.TrimSpace(part), "env ")
+		}
 		if len(f) == 0 {
 			continue
 		}
@@ -269,6 +279,9 @@ func (e *Env) vcmd(cwd string, f []string) error {
 	}
 	key := taskKey(proc, finalIn, params)
 	e.CmdByKey[key] = e.lastCmd
+	if e.fullCmd != "" && strings.Contains(e.fullCmd, e.lastCmd) && !strings.Contains(strings.Replace(e.fullCmd, e.lastCmd, "", 1), "vcmd ") {
+		e.CmdByKey[key] = e.fullCmd // the whole command (launcher prefix, suffix) when it holds this one task command
+	}
 	vs.Event("S:" + key)
 	var ps *ProcSpec
 	if e.Spec != nil {
